@@ -8,7 +8,7 @@ void harness(void)
 {
     xv_ghost_havoc();
     xv_td_havoc();
-    struct xcm_dns_query *q; struct xcm_addr_ip *ips; int capacity;
+    struct xcm_dns_query *q = xv_q_any(); struct xcm_addr_ip *ips; int capacity;
     int rv = xcm_dns_query_result(q, ips, capacity);
     if (rv == -1 && xv_errno == EAGAIN) XV_CANARY("in progress: EAGAIN");
     if (rv == -1 && xv_errno == ENOENT) XV_CANARY("failed: ENOENT");
